@@ -198,7 +198,9 @@ class Program:
             if os.path.exists(p):
                 try:
                     lines = open(p).read().split("\n")
-                    txt = " ".join(lines[key[1] - 1:key[1] + 2])
+                    txt = " ".join(lines[key[1] - 1:key[1] + 4])
+                    if "{" in txt:
+                        txt = txt[:txt.index("{") + 1]
                 except OSError:
                     pass
                 break
@@ -599,6 +601,8 @@ class Interp:
             return self.eval_const_item(state, cands[0])
         # named constant
         seg, parts = last_segment(txt)
+        if seg in parser.SIMPLE_CONSTS and not [f for f in self.prog.by_last.get(seg, []) if f.kind == "const"]:
+            return self.eval_const(state, fn, parser.SIMPLE_CONSTS[seg][2])
         cands = [f for f in self.prog.by_last.get(seg, []) if f.kind == "const"]
         if len(cands) > 1 and len(parts) >= 2:
             owner = norm_type(parts[-2])
@@ -785,6 +789,8 @@ class Interp:
                     tgt = self.load(state, tgt)
                 if isinstance(tgt, Agg) and tgt.kind in ("vec", "slice", "array"):
                     return z3.IntVal(len(tgt.fields))
+                if hasattr(tgt, "length") and hasattr(tgt, "off"):
+                    return tgt.length
                 raise Unencodable("PtrMetadata of %r" % (tgt,))
             if rv[1] == "Neg":
                 if isinstance(a, Opaque):
@@ -830,7 +836,7 @@ class Interp:
                 if dn in self.enum_tables or self.is_enum(dn, dest_ty):
                     idx = self.variant_index(dn, seg)
                     return EnumV(dn, idx, {idx: tuple(ops)} if ops else {})
-            return Agg("adt", norm_type(name).split("<")[0], ops)
+            return Agg("adt", norm_type(name).split("<")[0] or seg, ops)
         if k == "discriminant":
             v = self.read_place(state, fn, frame, rv[1])
             if isinstance(v, EnumV):
@@ -1028,7 +1034,7 @@ class Interp:
                 return r
         callee = self.resolve(caller, func, argtys, argvals)
         if callee is None:
-            raise Unencodable("call to %s (arg types %s) is neither in the dump nor in the model table" % (func, argtys))
+            raise Unencodable("call to %s (arg types %s; values %s) is neither in the dump nor in the model table" % (func, argtys, [repr(a)[:60] for a in argvals]))
         self.calls_seen.setdefault(func, "mir:" + callee.name)
         outs = self.call_fn(callee, argvals, st)
         if callee.name in self.watch:
@@ -1058,7 +1064,7 @@ class Interp:
         owner = None
         trait = None
         # drop turbofish segments (`Type::<Args>::method`)
-        parts = [x for x in parts[:-1] if not (x.strip().startswith("<") and " as " not in x)] + [parts[-1]]
+        parts = [x for i_, x in enumerate(parts[:-1]) if not (x.strip().startswith("<") and (i_ > 0 or " as " not in x))] + [parts[-1]]
         m = re.match(r"^<(.*) as (.*)>$", parts[-2].strip()) if len(parts) >= 2 else None
         if m:
             owner = norm_type(m.group(1))
